@@ -1,8 +1,10 @@
 package main
 
 import (
+	"encoding/binary"
 	"fmt"
 	"math/bits"
+	"time"
 )
 
 func init() { register("C17", runC17) }
@@ -122,6 +124,76 @@ func runC17(r *Run) {
 			}
 		}
 	}
+	// the same over the real handler and both real transports, several tunnels of one client at once
+	r.TierRan("api")
+	for s := 0; s < 4; s++ {
+		cfg := &gwCfg{token: s&1 != 0, sc: s&2 != 0}
+		caps := 0
+		if cfg.sc {
+			caps |= 1
+		}
+		if cfg.token {
+			caps |= 2
+		}
+		gws := startGateway(cfg.gateway())
+		for _, kind := range []string{"ws", "legacy"} {
+			opened, failedOpen, lastErr := 0, 0, ""
+			for _, client := range []int{0, 1, 2, 3, 4, 6} {
+				want := (caps == 0 && client == 0) || caps&client != 0
+				pkt := mkPacket(tHandshake, bodyHandshake(3, 9, 0, client))
+				res := c17First(kind, gws, pkt, "X-Forwarded-For: 192.0.2.10\r\n")
+				r.Count(fmt.Sprintf("api:%s:%d:%d", kind, caps, client))
+				r.Dist("api:" + kind)
+				if res.inconclusive != "" {
+					failedOpen++
+					lastErr = res.inconclusive
+					r.Inconclusive()
+					if failedOpen == 6 && opened == 0 {
+						// not once could a tunnel be opened on this transport: no handshake can be answered
+						r.Violation("c17-noresponse", "handshake not answered by exactly one well-formed handshake response", fmt.Sprintf("transport %s over the real handler; server caps %d: none of six attempts to open a tunnel succeeded (%s), so no handshake is ever answered on this transport\n", kind, caps, lastErr))
+					}
+					continue
+				}
+				opened++
+				rep := fmt.Sprintf("transport %s over the real handler; server caps %d, client ext auth %d\nresponses: %s ended=%v\n", kind, caps, client, pktsCanon(res.pkts), res.ended)
+				if len(res.pkts) != 1 || len(res.pkts[0]) < 18 || res.pkts[0][0] != 2 {
+					if kind == "legacy" && len(res.pkts) == 0 && !res.ended {
+						r.Inconclusive() // the IN handler's Drain took the handshake
+						continue
+					}
+					r.Violation("c17-noresponse", "handshake not answered by exactly one well-formed handshake response", rep)
+					continue
+				}
+				st := binary.LittleEndian.Uint32(res.pkts[0][8:12])
+				if (st == 0) != want || (st != 0 && st != 0x800759E9) {
+					r.Violation("c17-iff", "handshake outcome differs from the negotiation rule", rep)
+				} else if st == 0 && (res.pkts[0][12] != 3 || res.pkts[0][13] != 9 || int(binary.LittleEndian.Uint16(res.pkts[0][16:18])) != caps) {
+					r.Violation("c17-advertise", "successful handshake does not advertise exactly the enabled mechanisms / echo the version bytes / continue", rep)
+				}
+			}
+		}
+		// three tunnels of one client (same user, same address) held open at the same time
+		var open []*wsClient
+		for k := 0; k < 3; k++ {
+			w, err := dialWS(gws.addr, "{"+randHex(8)+"}", "X-Forwarded-For: 192.0.2.10\r\n")
+			if err != nil {
+				r.Inconclusive()
+				continue
+			}
+			open = append(open, w)
+			client := caps
+			w.send(mkPacket(tHandshake, bodyHandshake(1, 0, 0, client)))
+			m, err := w.recv(2 * time.Second)
+			r.Count(fmt.Sprintf("api-concurrent:%d:%d", caps, k))
+			if err != nil || len(m) < 12 || m[0] != 2 || binary.LittleEndian.Uint32(m[8:12]) != 0 {
+				r.Violation("c17-noresponse", "handshake not answered by exactly one well-formed handshake response", fmt.Sprintf("server caps %d; tunnel %d of three websocket tunnels opened by one client (same address) and held open together; client ext auth %d: response %s err %v\n", caps, k+1, client, hx(m), err))
+			}
+		}
+		for _, w := range open {
+			w.close()
+		}
+		gws.close()
+	}
 	if drift > 0 && !r.HasViolation() {
 		r.Unproven(fmt.Sprintf("correspondence Model.matchAuth = Processor.matchAuth broke on %d cases", drift), first)
 	}
@@ -132,4 +204,37 @@ func firstWrite(ir *implRun) []byte {
 		return ir.elems[0].writes[0]
 	}
 	return nil
+}
+
+// c17First opens a tunnel over the real handler, sends one packet and returns what comes back
+// within a second (the tunnel is closed afterwards).
+func c17First(kind string, g *gwServer, pkt []byte, hdr string) *apiResult {
+	res := &apiResult{}
+	id := "{" + randHex(8) + "}"
+	var cl gwClient
+	var pr *packetReader
+	if kind == "ws" {
+		w, err := dialWS(g.addr, id, hdr)
+		if err != nil {
+			res.inconclusive = err.Error()
+			return res
+		}
+		cl, pr = w, readWS(w, 2*time.Second)
+	} else {
+		l, err := dialLegacy(g.addr, id, hdr)
+		if err != nil {
+			res.inconclusive = err.Error()
+			return res
+		}
+		cl, pr = l, readLegacy(l, 2*time.Second)
+	}
+	cl.send(pkt)
+	waitFor(time.Second, func() bool {
+		pk, ended := pr.snapshot()
+		return len(pk) > 0 || ended
+	})
+	time.Sleep(20 * time.Millisecond)
+	res.pkts, res.ended = pr.snapshot()
+	cl.close()
+	return res
 }
